@@ -57,6 +57,8 @@ def gen_history(rng, maxlen):
             ops.append(('rownumber',))
         elif r < 0.95:
             ops.append(('hasdesc',))
+        elif rng.random() < 0.35:
+            ops.append(('execfail',))       # round 8 (seed C10-m16): an execute that raises during evaluation
         else:
             ops.append(('execute', rng.choice([0, 1, 2, 3, 5])))
     return ops
@@ -74,7 +76,7 @@ def fix_handles(ops):
     return out
 
 
-def run_impl(ops):
+def _run_impl_raw(ops):
     table = impl.make_table('t', [('x', int)], [(i,) for i in range(8)])
     conn = impl.connection({'t': table})
     conn.cursor()  # an unrelated earlier cursor on the same connection
@@ -92,6 +94,16 @@ def run_impl(ops):
                 curs.execute(f'SELECT x + {base} AS x FROM #t WHERE x < {o[1]}')
                 other.fetchone()
                 r = [0]
+            elif k == 'execfail':
+                # parses and compiles, raises while the rows are evaluated (IN with an int right operand: the listed C04/C05
+                # finding `in-unchecked`); the unchanged cursor assigns its state only after execute_query returned
+                try:
+                    curs.execute('SELECT x IN x AS x FROM #t')
+                    r = [7]
+                except (impl.beanquery.ParseError, impl.beanquery.CompilationError):
+                    r = [8]
+                except Exception:  # noqa: BLE001
+                    r = [6]
             elif k == 'fetchone':
                 v = curs.fetchone()
                 r = [0] if v is None else [1, v[0]]
@@ -122,6 +134,12 @@ def run_impl(ops):
             r = ['exception', type(e).__name__]
         outs.append(r)
     return outs
+
+
+def run_impl(ops):
+    """Outputs aligned with the model's: a failed execute (marker [6]) is NO step of the model (the cursor's state is assigned only
+    after the query was evaluated), so its entry is dropped; an `execfail` that did not fail at evaluation time stays and mismatches."""
+    return [r for o, r in zip(ops, _run_impl_raw(ops)) if not (o[0] == 'execfail' and r == [6])]
 
 
 def model_expr(ops):
@@ -338,6 +356,9 @@ def run(tier, rng):
         # round 8 (seed C10-m15): an iterator advanced, the cursor re-executed, the OLD iterator advanced again
         [('execute', 4), ('newiter',), ('next', 0), ('execute', 3), ('next', 0), ('rownumber',), ('next', 0), ('fetchone',), ('next', 0)],
         [('execute', 2), ('newiter',), ('next', 0), ('next', 0), ('execute', 6), ('newiter',), ('next', 0), ('next', 1), ('next', 0), ('rownumber',)],
+        # round 8 (seed C10-m16): partial fetch, an execute that raises during evaluation, the remaining rows
+        [('execute', 4), ('fetchmany', 3), ('execfail',), ('rownumber',), ('rowcount',), ('fetchmany', 2), ('fetchone',), ('fetchall',), ('rownumber',)],
+        [('execfail',), ('rowcount',), ('hasdesc',), ('fetchone',), ('execute', 3), ('fetchone',), ('execfail',), ('newiter',), ('next', 0), ('fetchall',), ('rownumber',), ('hasdesc',)],
     ]
     hist = corpus + hist
     impl_out = core.pmap(run_impl, hist)
